@@ -11,8 +11,8 @@ STUBS = ['np.sqrt -> sqrt atoms; np.cos/np.sin -> phasors']
 EXPLANATION = ('The value routine is executed on a symbolic point; the engine differentiates its symbolic output exactly '
                '(polynomial derivative, chain rule through phasors and sqrt atoms) and the derivative routine, executed on '
                'the same symbols, must equal it.  Coefficient vectors of the Clenshaw routines are symbolic.')
-BOUNDS = {'quick': 'orders n<=8 (jacobi: n<=6, symbolic alpha/beta), zernike n<=5, Clenshaw lengths 1..5 and derivative order j<=3, Q2d m<=3',
-          'thorough': 'orders n<=16 (jacobi n<=10), zernike n<=8, Clenshaw lengths 1..7, j<=3, Q2d m<=4'}
+BOUNDS = {'quick': 'orders n<=8 (jacobi: n<=6, symbolic alpha/beta), zernike n<=5, Clenshaw lengths 1..5 and derivative order j<=3, Q2d m<=3; derivative sequence forms on 4 dense/sparse lists up to n=5; 2D-Q freeform surface slopes (symbolic point, c, k, R, shift; 5 coefficients)',
+          'thorough': 'orders n<=16 (jacobi n<=10), zernike n<=8, Clenshaw lengths 1..7, j<=3, Q2d m<=4; der_seq on 6 lists up to n=8'}
 OUTSIDE = 'derivative order j>3; orders above the bound; off_axis_conic_sag/_der and off_axis_conic_sigma/_der (radicand depends on cos t: not encodable in the phasor domain); Q2d_and_der'
 NDERIVED = 40
 MAX_PATHS = 8
